@@ -82,9 +82,50 @@ def run_tokens(S_, lang, n, stats, findings):
             findings.append({'level': 'tokens', 'lang': lang, 'n': n, 'kind': 'panic', 'msg': p['result']['msg'], 'where': short_fn(p['result']['where'] or ''), 'text': token_text(m, meta)})
         else:
             disc, wf, meta = p['result']
+            if disc == 0 and wf is not False and stats.get('rt') is not None:
+                stats['rt'].append((lang, token_text(ex_model(p['pc']), meta)))
             if disc == 0 and wf is False:
                 m = ex_model(p['pc'])
                 findings.append({'level': 'tokens', 'lang': lang, 'n': n, 'kind': 'illformed', 'msg': 'Ok value with a node whose number of sub-patterns differs from its number of children', 'where': 'parse_pattern_nosubst', 'text': token_text(m, meta)})
+    stats['fenc'] |= set(ex.inlined); stats['lmod'] |= ex.modelled; stats['solver_s'] += ex.t_solver; stats['branches'] += ex.n_branches
+
+SEEDS = {'Lb': ['( lam $s0 ( app ( var $s0 ) ?a ) )', '?a [ ?b [ ?c := ?d ] := ?e ]', '?a [ ?b := ?c ] [ ?d := ?e ]', '( app ?a [ ?b := ?c ] ( var $s1 ) )', '( app ( lam $s0 ?a ) ( u ?b ) )'],
+         'Lf': ['( f $s0 $s1 ) [ ?a := ( g $s1 $s0 ) ]']}
+def seed_kinds(text, lang):
+    out = []
+    for t in text.split():
+        if t.startswith('$'): out.append(('Slot', None))
+        elif t.startswith('?'): out.append(('PVar', None))
+        elif t in (':=', '(', ')', '[', ']'): out.append(({':=': 'ColonEquals', '(': 'LParen', ')': 'RParen', '[': 'LBracket', ']': 'RBracket'}[t], None))
+        else: out.append(('Ident', t))
+    return out
+
+def run_seeded(S_, lang, seed, max_dev, stats, findings):
+    """every token sequence that differs from a valid seed text in at most max_dev positions (kind / identifier symbolic there)"""
+    R = S_.resolver; R.tymap.clear(); R.tymap.update({'L': lang})
+    ex = S_.executor(); pp = R.M('parse_pattern')
+    kinds = seed_kinds(seed, lang); n = len(kinds)
+    def entry(ex_):
+        toks, meta = mk_tokens(ex_, n, lang)
+        devs = []
+        for (d, ch, sv), (k, ident) in zip(meta, kinds):
+            same = d == TOKENS.index(k)
+            if ident is not None: same = z3.And(same, ch.sel == IDENTS[lang].index(ident))
+            devs.append(z3.If(same, z3.BitVecVal(0, 8), z3.BitVecVal(1, 8)))
+        ex_.assume(z3.ULE(sum(devs[1:], devs[0]), max_dev))
+        r = ex_.call(pp, [SliceRef(toks, 0, n)])
+        wf = pattern_wf(ex_, R, r.payload.f[0].f[0]) if r.disc == 0 else None
+        rest = len(r.payload.f[0].f[1]) if r.disc == 0 else None
+        return (r.disc, wf, meta, rest)
+    for p in ex.explore(entry, max_paths=50000):
+        stats['paths'] += 1
+        meta = [(z3.BitVec('tk%d' % i, 64), SChoice(z3.BitVec('id%d' % i, 8), IDENTS[lang]), z3.BitVec('ts%d' % i, 32)) for i in range(n)]
+        if p['kind'] == 'panic':
+            findings.append({'level': 'tokens', 'lang': lang, 'n': n, 'kind': 'panic', 'msg': p['result']['msg'], 'where': short_fn(p['result']['where'] or ''), 'text': token_text(ex_model(p['pc']), meta)})
+        else:
+            disc, wf, _, rest = p['result']
+            if disc == 0 and wf is False: findings.append({'level': 'tokens', 'lang': lang, 'n': n, 'kind': 'illformed', 'msg': 'ill-formed Ok value', 'where': 'parse_pattern_nosubst', 'text': token_text(ex_model(p['pc']), meta)})
+            elif disc == 0 and rest == 0 and stats.get('rt') is not None: stats['rt'].append((lang, token_text(ex_model(p['pc']), meta)))
     stats['fenc'] |= set(ex.inlined); stats['lmod'] |= ex.modelled; stats['solver_s'] += ex.t_solver; stats['branches'] += ex.n_branches
 
 def ex_model(pc):
@@ -136,12 +177,13 @@ def native_replay(f, profile='release'):
 def confirmed(f, r):
     if r is None: return False
     res = r['result']
+    if f['kind'] == 'roundtrip': return True      # found natively
     if f['kind'] == 'panic': return res.startswith('panic')
     return res.startswith('ok wf=false')
 
 def run(tier, seed=0):
     t0 = time.time()
-    stats = {'paths': 0, 'fenc': set(), 'lmod': set(), 'solver_s': 0.0, 'branches': 0}
+    stats = {'paths': 0, 'fenc': set(), 'lmod': set(), 'solver_s': 0.0, 'branches': 0, 'rt': []}
     findings = []; inconclusive = []; samples = []
     S_ = Session((), True)
     NTOK = 6 if tier == 'quick' else 7
@@ -151,6 +193,8 @@ def run(tier, seed=0):
         for n in range(0, NTOK + 1):
             if lang == 'Lf' and n > 5: continue
             plan.append(('tokens', lang, n))
+    for lang in ('Lb', 'Lf'):
+        for seed in SEEDS[lang]: plan.append(('seeded', lang, seed))
     for n in range(0, NTXT + 1): plan.append(('text:tokenize', 'Lb', n))
     for n in range(0, NTXT + 1): plan.append(('text:pattern', 'Lb', n))
     for n in range(0, NTXT + 1): plan.append(('text:multi', 'Lb', n))
@@ -158,10 +202,25 @@ def run(tier, seed=0):
         before = stats['paths']; nf = len(findings); t1 = time.time()
         try:
             if kind == 'tokens': run_tokens(S_, lang, n, stats, findings)
+            elif kind == 'seeded': run_seeded(S_, lang, n, 1 if tier == 'quick' else 2, stats, findings)
             else: run_text(S_, lang, n, kind.split(':')[1], stats, findings)
-            samples.append({'obligation': '%s %s length %d' % (kind, lang, n), 'paths': stats['paths'] - before, 'findings': len(findings) - nf, 'wall_s': round(time.time() - t1, 2)})
+            samples.append({'obligation': ('%s %s length %d' % (kind, lang, n)) if kind != 'seeded' else 'token sequences within %d deviation(s) of the valid text "%s" (%s)' % (1 if tier == 'quick' else 2, n, lang), 'paths': stats['paths'] - before, 'findings': len(findings) - nf, 'wall_s': round(time.time() - t1, 2)})
         except (Unsupported, Budget) as e:
-            inconclusive.append('%s %s length %d: %s' % (kind, lang, n, str(e)[:300]))
+            inconclusive.append('%s %s %s: %s' % (kind, lang, n, str(e)[:300]))
+    # print/parse round trip on every parsed value: one representative text per Ok path, run natively
+    rt_checked = 0
+    texts = sorted(set(stats['rt']))
+    if texts:
+        lines = []
+        for i, (lang, tx) in enumerate(texts): lines.append('case parse:rt%d %s roundtrip\ntext %s\n' % (i, lang, ' '.join(str(ord(c)) for c in tx)))
+        nat = native.run_cases(''.join(lines))
+        for i, (lang, tx) in enumerate(texts):
+            r = nat.get('parse:rt%d' % i)
+            if r is None: continue
+            rt_checked += 1
+            if r['result'].startswith('err'): continue        # tokens left over after the pattern: Pattern::parse rejects the text
+            if not r['result'].startswith('ok same=true'):
+                findings.append({'level': 'tokens', 'lang': lang, 'n': len(tx.split()), 'kind': 'roundtrip', 'msg': 'parse(print(parse(text))) differs: ' + r['result'][:120], 'where': 'Display_for_Pattern', 'text': tx})
     known = common.load_known()
     violations = {}; known_hits = {}; validated = 0
     for f in findings:
@@ -178,7 +237,7 @@ def run(tier, seed=0):
     cov = {'states': max(stats['paths'], 1), 'transitions': max(stats['branches'], 1), 'traces_validated_against_impl': validated, 'samples': samples,
            'evaluations': stats['paths'], 'distinct_nontrivial': len(samples), 'rule': 'evaluation = one path (a solver-delimited class of token sequences / strings); distinct = (level, language, length) obligations',
            'functions_encoded': sorted(short_fn(x) for x in stats['fenc']), 'library_models': sorted(stats['lmod']), 'solver_time_s': round(stats['solver_s'], 2),
-           'findings_total': len(findings), 'finding_classes': sorted({classify(f) for f in findings}),
+           'roundtrip_texts_checked_natively': rt_checked, 'findings_total': len(findings), 'finding_classes': sorted({classify(f) for f in findings}),
            'bounds': 'token sequences of length <= %d (all kinds; identifier text any operator name or a foreign name; slots symbolic); strings of <= %d Unicode scalar values (all code points, multi-byte included); languages Lb/Lf of the harness crate; Slot::named stubbed at text level' % (NTOK, NTXT),
            'exhaustive': False}
     common.write_evidence('C18', tier, 'model_checking', cov, ['Slot::named returns an arbitrary slot at text level (decided by C17)', 'print/parse round trip of parsed values is replayed natively only'], time.time() - t0, len(violations), seed)
